@@ -605,17 +605,21 @@ class Parser:
         arms = []
         while not self.at("}"):
             self.skip_attrs()
-            pat = self.parse_pat()
+            pats = [self.parse_pat()]
             while self.at("|"):
-                raise Unsupported("or-pattern")
+                self.eat(); pats.append(self.parse_pat())     # `A | B => body`: one arm per alternative, same body
             guard = None
             if self.at("if"):
                 self.eat(); guard = self.parse_expr(nostruct=True)
             self.eat("=>")
             body = self.parse_expr(stmt=True)
+            pat = pats[0]
+            extra_arms = [(p2, guard, None) for p2 in pats[1:]]
             if self.at(","):
                 self.eat()
             arms.append((pat, guard, body))
+            for p2, g2, _ in extra_arms:
+                arms.append((p2, g2, body))
         self.eat("}")
         return ("match", e, arms)
 
